@@ -671,6 +671,12 @@ func c20Table(p *Prog, r *Report) {
 							}
 						}
 					}
+					// handed to a setter by address: stored(&s.DbPath, asIs)
+					if u, ok := x.(*ast.UnaryExpr); ok && u.Op == token.AND {
+						if sel, ok := ast.Unparen(u.X).(*ast.SelectorExpr); ok && info.Uses[sel.Sel] == l.field {
+							assignedAt = p.pos(u)
+						}
+					}
 					return true
 				})
 			}
@@ -1517,6 +1523,35 @@ func c20SemanticSetting(p *Prog, r *Report, cons string, l *cfgLeaf) bool {
 					}
 					return []*Val{{Tag: tag}, {Nil: true}}, true
 				}
+			}
+			return nil, false
+		}
+		// a parser or a converter of the standard library reached through a function value
+		// (parsed(&s.GCPeriod, time.ParseDuration) with "*dst, err = parse(raw)" inside)
+		env.ExtCall = func(e *Env, c *ast.CallExpr, fn *types.Func) ([]*Val, bool) {
+			sig, ok := fn.Type().(*types.Signature)
+			if !ok {
+				return nil, false
+			}
+			derived := false
+			for _, a := range c.Args {
+				if v, verr := e.Eval(a); verr == nil && v != nil && (v == text || v.Tag == "derived") {
+					derived = true
+				}
+			}
+			tag := "external"
+			if derived {
+				tag = "derived"
+			}
+			switch {
+			case sig.Results().Len() == 2 && isErrorType(sig.Results().At(1).Type()):
+				out.parsers++
+				if failParse {
+					return []*Val{{Tag: tag}, {Tag: "parse-error"}}, true
+				}
+				return []*Val{{Tag: tag}, {Nil: true}}, true
+			case sig.Results().Len() == 1:
+				return []*Val{{Tag: tag}}, true
 			}
 			return nil, false
 		}
